@@ -241,6 +241,7 @@ func (r *Run) StartAgent() int {
 	r.Inc++
 	inc := r.Inc
 	// process-global state a real restart would reset
+	vsim.RaceBarrier()
 	reg := prometheus.NewRegistry()
 	prometheus.DefaultRegisterer = reg
 	prometheus.DefaultGatherer = reg
